@@ -160,3 +160,5 @@ def run(ctx):
   from ..lib import default_of
   rb = default_of(vf.node, 'require_bindings')
   ctx.check(isinstance(rb, ast.Constant) and rb.value is True, 'C05.hook', construct(vf), 'bindings are required by default', 'require_bindings no longer defaults to True', vf.loc(), instance='default')
+  from .c15 import macro_always_applied
+  macro_always_applied(ctx, 'C05.key')
